@@ -19,6 +19,18 @@ val coq_SF_Stable : coq_N
 
 val coq_SF_Dynamic : coq_N
 
+val default_transform_on : bool
+
+val default_optimize : bool
+
+val default_merge_props : bool
+
+val default_enable_object_slots : bool
+
+val default_resolve_type : bool
+
+val option_keys : str list
+
 val html_tags : str list
 
 val svg_tags : str list
